@@ -10,7 +10,7 @@ import json
 
 from vlib import runner, sut, std, fuzz
 from vlib.runner import Outcome, Report, Reject
-from gen import messages as gmsg, templates as gtemplates
+from gen import pool as gpool, messages as gmsg, templates as gtemplates
 from refbufr import scriptref, pathref
 from pybufrkit.script import process_embedded_query_expr, ScriptRunner
 from pybufrkit.dataquery import NodePathParser, DataQuerent
@@ -203,13 +203,28 @@ def decoder():
 
 
 def gen_run(ch, opts):
-    case = gmsg.gen_case(ch, opts)
+    mixed = None
+    if ch.bool(1, 4):
+        # one element outside and inside replications: the matches of its bare ID lie at different nesting depths
+        mv = ch.choice(opts.versions or gmsg.QUICK_VERSIONS)
+        pl = gpool.pool_for(mv)
+        e, f = ch.choice(pl.num_all), ch.choice(pl.num_all)
+        ids = ch.choice([[e, 101002, e],
+                         [e, f, 102000, 31001, f, 101000, 31001, e],
+                         [102002, e, 101002, e, e, f],
+                         [e, 103000, 31001, f, e, 101000, 31001, e, f]])
+        case = gmsg.gen_case(ch, opts, fixed=(mv, None, ids))
+        mixed = ['%06d' % e, '> %06d' % e, '%06d' % f]
+    else:
+        case = gmsg.gen_case(ch, opts)
     o = sut.call(decoder().process, case.bytes)
     if not o.ok:
         raise Reject('message does not decode')
     nj = sut.nested_template_data(o.value)
     exprs = []
-    md_only = ch.bool(1, 4)
+    md_only = ch.bool(1, 4) and mixed is None
+    if mixed:
+        exprs.append(ch.choice(mixed))
     for _ in range(ch.int(1, 5)):
         if md_only or ch.bool(1, 3):
             exprs.append(ch.choice(MD_EXPRS))
@@ -266,10 +281,18 @@ def check_run(rc):
     eff = rc.arg if rc.arg is not None else (rc.pragma if rc.pragma is not None else 1)
     md_only = all(e.lstrip().startswith('%') for e in rc.exprs + ['%length'])   # the literal/comment embeds do not count
     md_only = all(e.lstrip().startswith('%') for e in rc.exprs)
+    mixed_depth = False
+    for e in rc.exprs:
+        if not e.lstrip().startswith('%'):
+            for per_subset in l4[e]:
+                if isinstance(per_subset, list) and any(isinstance(x, list) for x in per_subset) and any(not isinstance(x, list) for x in per_subset):
+                    mixed_depth = True
     out.classes = ['run', 'level_%d' % eff, 'by_argument' if rc.arg is not None else ('by_pragma' if rc.pragma is not None else 'default_level'),
                    'metadata_only' if md_only else 'needs_data']
     if rc.arg is not None and rc.pragma is not None and rc.arg != rc.pragma:
         out.classes.append('argument_beats_pragma')
+    if mixed_depth:
+        out.classes.append('matches_at_different_nesting_depths')
     out.nontrivial = not md_only or rc.dup is not None
     results = {}
     for level in sorted({eff, 0, 1, 2, 4}):
